@@ -1,6 +1,6 @@
 //@item src/value.rs | enum InputValue | derive(Clone, Copy, PartialEq, Eq)
 //@item src/value.rs | enum OutputValue | derive(Clone, Copy, PartialEq, Eq)
-//@item src/value.rs | enum ExpectedValue | derive(Clone, Copy, PartialEq, Eq)
+//@item src/value.rs | enum ExpectedValue | derive(Clone, Copy, PartialEq, Eq, Structural)
 //@include units/inc/expr_types.rs
 //@item src/lib.rs | struct VirtualExpr
 //@item src/lib.rs | enum SignalType
